@@ -41,4 +41,20 @@ def wiresharkField (frameSize : Nat) (s : Sig) : String × Nat × Nat :=
 /-- wireshark sign fix-up constant (`- (1 << size)` when the first bit is 1), absent for unsigned / float -/
 def wiresharkSignFix (s : Sig) : Option Nat := if s.signed && !s.isFloat then some (1 <<< s.size) else none
 
+/-- wireshark sign probe `is_signed = <buf>:bitfield(off, 1)`: `get_coorect_bits_for_signal(frame, signal, 1)` -
+same buffer and same offset as the value field, length 1 -/
+def wiresharkProbe (frameSize : Nat) (s : Sig) : String × Nat :=
+  ((wiresharkField frameSize s).1, (wiresharkField frameSize s).2.1)
+
+/-- FIBEX `CODED-TYPE/@BASE-DATA-TYPE` (`get_base_data_type`), the only place FIBEX records signedness;
+`none` when the writer sets no attribute (size 0 or > 64) -/
+def fibexBaseTypeOf (size : Nat) (signed isFloat : Bool) : Option String :=
+  if isFloat then some (if size ≤ 32 then "A_FLOAT32" else "A_FLOAT64")
+  else
+    let w := if size > 0 && size ≤ 8 then some "8" else if size > 8 && size ≤ 16 then some "16"
+             else if size > 16 && size ≤ 32 then some "32" else if size > 32 && size ≤ 64 then some "64" else none
+    w.map fun x => (if signed then "A_INT" else "A_UINT") ++ x
+
+def fibexBaseType (s : Sig) : Option String := fibexBaseTypeOf s.size s.signed s.isFloat
+
 end CanVerif
